@@ -6,6 +6,8 @@ import (
 	"sync"
 	"syscall"
 	"unsafe"
+
+	"github.com/tencent/goom/internal/simhook"
 )
 
 // memoryAccessLock .text 区内存操作度协作
@@ -28,6 +30,8 @@ func RawAccess(addr uintptr, length int) []byte {
 
 // RawRead 内存数据读取(线程安全的)
 func RawRead(addr uintptr, length int) []byte {
+	simhook.Acquire(simhook.LockMem)
+	defer simhook.Release(simhook.LockMem)
 	memoryAccessLock.RLock()
 	defer memoryAccessLock.RUnlock()
 
